@@ -175,6 +175,9 @@ def handle(ctx, src, label, shrinkable):
 
 def run(ctx):
     files = repo_files()
+    if ctx.quick:
+        # quick tier: a seed-dependent quarter of the repository corpus
+        files = files[ctx.seed % 4::4]
     limit = len(files) if not ctx.quick else \
         int(len(files) * float(os.environ.get("VERIF_SCALE", "1")))
     for path in files[ctx.shard:limit:ctx.nshards]:
@@ -198,7 +201,7 @@ def run(ctx):
         handle(ctx, prog.module_source, "generated", True)
 
     ctx.hyp(prop, gd.decl_programs(PROFILE),
-            max_examples=ctx.scale(3000, 60000),
+            max_examples=ctx.scale(1600, 60000),
             key=lambda p: p.module_source)
 
 
